@@ -67,7 +67,7 @@ def render(ctx, terms, shard=80):
         return [(x, [nstr(w) for w in s_], nstr(e), parse_strings(r[3])[0]) for x, s_, e in zip(xs, segs, excl)], ""
 
     rows = []
-    with ThreadPoolExecutor(max_workers=16) as ex:
+    with ThreadPoolExecutor(max_workers=6) as ex:
         for r, log in ex.map(run, list(enumerate(chunks))):
             if r is None:
                 return None, log[-1500:]
